@@ -287,6 +287,7 @@ class Projector:
                 "cok": [f for f in fm if v.get(f, (False, False))[0]],
                 "sok": [f for f in fm if v.get(f, (False, False))[1]],
                 "prev": list(w.apath_of_rel(r["prev"])) if r["prev"] else ["-"],
+                "hs": _hs(r),
             }
             if raw:
                 rec["raw"] = r
@@ -299,11 +300,12 @@ class Projector:
                 "fmts": fm,
                 "cok": [f for f in fm if v.get(f, (False, False))[0]],
                 "sok": [f for f in fm if v.get(f, (False, False))[1]],
+                "hs": _hs(m["root"]),
             }
             if raw:
                 g["root"]["raw"] = m["root"]
         else:
-            g["root"] = {"has": False, "fmts": [], "cok": [], "sok": []}
+            g["root"] = {"has": False, "fmts": [], "cok": [], "sok": [], "hs": []}
         g["refs"] = []
         for r in m["refs"]:
             # reference path: <child rel>/ascmhl/<file>
@@ -399,6 +401,11 @@ class Projector:
                     v[fmt] = (c == e["d"], s == smap.get(fmt))
                 verdict[rel] = v
             self.dirverdict[mp] = verdict
+
+
+def _hs(r):
+    sm = {e["f"]: e["d"] for e in r["structure"]}
+    return [{"f": e["f"], "c": e["d"] or "", "s": sm.get(e["f"]) or ""} for e in r["content"]]
 
 
 def _relpath_ok(p):
